@@ -204,6 +204,11 @@ def spatial_case(apply_filters):
             cells = sorted({c for ev in syn for c, _ in ev})
             for obs in ([], [[cells[0], 0]], [[cells[0], 0], [cells[-1], 1], [cells[0], 2]]):
                 fam.append(('catfc_test', dict(test='spatial_test', grid=g, synthetic=syn, observed=obs, source='list')))
+            # observed events in cells no synthetic catalog sampled (the 'undersampled' path), with and without events left
+            free = [k for k in range(4) if k not in cells]
+            if free:
+                fam.append(('catfc_test', dict(test='spatial_test', grid=g, synthetic=syn, observed=[[cells[0], 0], [free[0], 1]], source='list')))
+                fam.append(('catfc_test', dict(test='spatial_test', grid=g, synthetic=syn, observed=[[free[0], 1]], source='list')))
         return fam
 
     class ST:
@@ -227,16 +232,22 @@ def spatial_case(apply_filters):
                                        region=c.obj(None, name='region'))
             obs_counts = c.arr('observed_spatial_counts', 'float64', n=n0)
             obs = c.obj(None, event_count=c.int('n_obs_events'), name='obs', spatial_counts=Lam(lambda *a, **k: obs_counts))
+            # the score of a catalog with an event in a cell of rate 0 is -inf (assumed float semantics of the callee): the
+            # 'undersampled' path of the test is under contract
+            c.ctx.ghost['plh_minus_inf'] = True
             return dict(forecast=fo, observed_catalog=obs, verbose=False, _v=dict(J=J, rates=rates, E=E, obs=obs_counts, n0=n0, j0=j0))
 
         def requires(c, forecast, observed_catalog, verbose, _v):
             rates, obs, n0 = _v['rates'], _v['obs'], _v['n0']
-            i = z3.Int('i!rq')
+            i, s_ = z3.Int('i!rq'), z3.Int('s!rq')
+            key_ = (lambda k: FILT(SRC(k))) if apply_filters else (lambda k: SRC(k))
             return [observed_catalog.fields['event_count'] >= 0,
                     z3.ForAll([i], z3.Implies(z3.And(0 <= i, i < n0), rates.f((i,)) >= 0), patterns=[rates.f((i,))]),
                     z3.ForAll([i], z3.Implies(z3.And(0 <= i, i < n0), obs.f((i,)) >= 0), patterns=[obs.f((i,))]),
-                    # observed events only in cells some synthetic catalog sampled (otherwise: the 'undersampled' path, bounded only)
-                    z3.ForAll([i], z3.Implies(z3.And(0 <= i, i < n0, obs.f((i,)) > 0), rates.f((i,)) > 0), patterns=[obs.f((i,))]),
+                    # the expected rates are the per-cell mean of the synthetic catalogs' counts (C13): a cell of rate 0 holds no
+                    # synthetic event.  (Observed events may lie in such cells: the 'undersampled' path.)
+                    z3.ForAll([s_, i], z3.Implies(z3.And(0 <= s_, s_ < _v['J'], 0 <= i, i < n0, rates.f((i,)) == 0), SCF(key_(s_), i) == 0),
+                              patterns=[SCF(key_(s_), i)]),
                     # the expected count is the mean size of the synthetic catalogs (what get_expected_rates establishes: C13);
                     # used in the form: a non-zero expected count means some synthetic catalog has an event (L4_sum_ne_zero_exists)
                     z3.Implies(_v['E'] != 0, z3.And(0 <= _v['j0'], _v['j0'] < _v['J'], ST.size_of(_v, _v['j0']) != 0))]
@@ -258,13 +269,49 @@ def spatial_case(apply_filters):
             os_ = r.fields.get('observed_statistic')
             q = r.fields.get('quantile')
             yield 'status is a definite string', z3.BoolVal(st in ('normal', 'not-valid', 'undersampled'))
+            i_ = z3.Int('i!en')
+            unders = z3.Exists([i_], z3.And(0 <= i_, i_ < n0, to_real(obs.f((i_,))) != 0, to_real(rates.f((i_,))) == 0))
+            # sums over the cells of non-zero rate (the selection of the 'undersampled' recomputation): L4_sum_over_selection
+            nz = lambda a: to_real(rates.f((a,))) != 0
+            tot_rate = _rsum(lambda a: rates.f((a,)), n0)
+            kept0 = _rsum(lambda a: z3.If(nz(a), to_real(obs.f((a,))), z3.RealVal(0)), n0)
+            term = lambda a: z3.If(to_real(obs.f((a,))) != 0, to_real(obs.f((a,))) * LOG(to_real(rates.f((a,))) / tot_rate), z3.RealVal(0))
+            lln_kept = _rsum(lambda a: z3.If(nz(a), term(a), z3.RealVal(0)), n0)
+            for sel in (c.ctx.ghost.get('selections') or {}).values():
+                if not z3.simplify(sel['n'] == n0).eq(z3.BoolVal(True)) and not sel['n'].eq(to_z3(n0)):
+                    continue            # the selection that removes NaN entries from the test distribution
+                sl, m = sel['sel'], sel['m']
+                tr_sel = _rsum(lambda j: rates.f((sl(j),)), m)
+                c.ctx.fact(_rsum(lambda j: to_real(obs.f((sl(j),))), m) == kept0, lemma=True)
+                c.ctx.fact(tr_sel == _rsum(lambda a: z3.If(nz(a), to_real(rates.f((a,))), z3.RealVal(0)), n0), lemma=True)
+                term_s = lambda a: z3.If(to_real(obs.f((a,))) != 0, to_real(obs.f((a,))) * LOG(to_real(rates.f((a,))) / tr_sel), z3.RealVal(0))
+                c.ctx.fact(_rsum(lambda j: term_s(sl(j)), m) == _rsum(lambda a: z3.If(nz(a), term_s(a), z3.RealVal(0)), n0), lemma=True)
+                c.I.used_lemmas.add('L4.count_over_selection')
+                from pyvc.contracts import pointwise_sum_hint
+                h = pointwise_sum_hint(c, 'cells of rate 0 add nothing to the total rate', _rsum(lambda a: z3.If(nz(a), to_real(rates.f((a,))), z3.RealVal(0)), n0),
+                                       lambda a: to_real(rates.f((a,))), n0)
+                if h:
+                    yield h
+                yield 'hint:the total rate of the selected cells is the total rate', tr_sel == tot_rate
+                h = pointwise_sum_hint(c, 'normalising by the total rate of the selected cells or of all cells is the same',
+                                       _rsum(lambda a: z3.If(nz(a), term_s(a), z3.RealVal(0)), n0), lambda a: z3.If(nz(a), term(a), z3.RealVal(0)), n0)
+                if h:
+                    yield h
             if st == 'not-valid':
-                yield "'not-valid' only when the statistic of the observation is undefined (no observed events / zero expected count)", undefined_o
+                yield "'not-valid' only when the statistic of the observation is undefined (no observed events / zero expected count / " \
+                      "no observed event left in a cell of non-zero rate)", z3.Or(undefined_o, z3.And(unders, kept0 == 0))
                 yield "'not-valid': no numeric quantile", z3.BoolVal(isinstance(q, tuple) and q == (-1, -1))
             else:
                 yield 'a quantile is reported only when the observed statistic is defined', z3.Not(undefined_o)
-                yield 'observed statistic == normalised spatial pseudo-likelihood of the observed catalog', z3.BoolVal(
-                    not isinstance(os_, (MaybeNan, Opaque))) if isinstance(os_, (MaybeNan, Opaque)) else to_real(os_) * total_o == lln_o
+                if st == 'normal':
+                    yield 'status normal only if no observed event lies in a cell of rate 0', z3.Not(unders)
+                    yield 'observed statistic == normalised spatial pseudo-likelihood of the observed catalog', z3.BoolVal(
+                        not isinstance(os_, (MaybeNan, Opaque))) if isinstance(os_, (MaybeNan, Opaque)) else to_real(os_) * total_o == lln_o
+                else:
+                    yield 'status undersampled only if an observed event lies in a cell of rate 0', unders
+                    yield 'events remain in cells of non-zero rate', kept0 != 0
+                    yield 'observed statistic == normalised spatial pseudo-likelihood over the cells of non-zero rate', z3.BoolVal(
+                        not isinstance(os_, (MaybeNan, Opaque))) if isinstance(os_, (MaybeNan, Opaque)) else to_real(os_) * kept0 == lln_kept
                 calls = c.calls(GQ)
                 yield 'quantiles come from get_quantiles (one call)', z3.BoolVal(len(calls) == 1)
                 if calls:
@@ -285,7 +332,7 @@ def spatial_case(apply_filters):
                 def defined(s):
                     total, _ = lnorm_spec(lambda a: SCF(key(s), a), rates, n0)
                     return z3.Not(z3.Or(total == 0, n_obs == 0, E == 0))
-                sels = list((c.ctx.ghost.get('selections') or {}).values())
+                sels = [g_ for g_ in (c.ctx.ghost.get('selections') or {}).values() if g_['n'].eq(to_z3(J))]
                 if sels:
                     from pyvc.contracts import pointwise_count_hint
                     g = sels[-1]
